@@ -112,17 +112,21 @@ Section LTS.
              end
     end.
 
+  (* The candidate set is tau-closed once at the start and again after every
+     stimulus; the other visible labels (returns, reports) are thread-local
+     steps, after which a tau-closed set is still tau-closed, so it is not
+     recomputed (this only affects completeness, never soundness). *)
   Fixpoint accept (fuel : nat) (S : list St) (tr : list Lab) : bool :=
     match tr with
     | [] => match S with [] => false | _ => true end
     | l :: r =>
-        let C := closure fuel S S in
-        let C := if stim l then filter quiescent C else C in
-        accept fuel (add_new (flat_map (vis_succ l) C) [] []) r
+        let C := if stim l then filter quiescent S else S in
+        let S1 := add_new (flat_map (vis_succ l) C) [] [] in
+        accept fuel (if stim l then closure fuel S1 S1 else S1) r
     end.
 
   Definition trace_accepted (fuel : nat) (init : St) (tr : list Lab) : bool :=
-    accept fuel [init] tr.
+    accept fuel (closure fuel [init] [init]) tr.
 
   Definition RunsTo (init : St) (tr : list Lab) (s : St) : Prop :=
     exists sched, run init sched = s /\ trace init sched = tr.
@@ -163,19 +167,102 @@ Section LTS.
   Proof. induction tr as [|l r IH]; intros pre S HS H; cbn in H.
     - destruct S as [|x S]; [discriminate|]. exists x. rewrite app_nil_r. apply HS. left. reflexivity.
     - replace (pre ++ l :: r) with ((pre ++ [l]) ++ r) by (rewrite <- app_assoc; reflexivity).
-      eapply IH; [|exact H]. intros x Hx. apply add_new_sub in Hx. destruct Hx as [Hx|[]].
-      apply in_flat_map in Hx. destruct Hx as [z [Hz Hx]]. eapply vis_succ_runs; [|exact Hx].
-      assert (Hc : In z (closure fuel S S)) by (destruct (stim l); [apply filter_In in Hz; apply Hz|exact Hz]).
-      eapply closure_runs; [| |exact Hc]; exact HS. Qed.
+      assert (H1 : forall x, In x (add_new (flat_map (vis_succ l) (if stim l then filter quiescent S else S)) [] []) ->
+                             RunsTo init (pre ++ [l]) x).
+      { intros x Hx. apply add_new_sub in Hx. destruct Hx as [Hx|[]].
+        apply in_flat_map in Hx. destruct Hx as [z [Hz Hx]]. eapply vis_succ_runs; [|exact Hx].
+        apply HS. destruct (stim l); [apply filter_In in Hz; apply Hz|exact Hz]. }
+      eapply IH; [|exact H]. intros x Hx. destruct (stim l); [|apply H1, Hx].
+      eapply closure_runs; [| |exact Hx]; exact H1. Qed.
 
   (* an accepted trace IS a trace of the system under some schedule *)
   Theorem trace_accepted_sound : forall fuel init tr,
     trace_accepted fuel init tr = true -> exists sched, trace init sched = tr.
-  Proof. intros fuel init tr H. destruct (accept_sound_gen init fuel tr [] [init]) as [s [sc [_ Ht]]].
-    - intros x [<-|[]]. exists []. split; reflexivity.
+  Proof. intros fuel init tr H.
+    assert (H0 : forall x, In x [init] -> RunsTo init [] x).
+    { intros x [<-|[]]. exists []. split; reflexivity. }
+    destruct (accept_sound_gen init fuel tr [] (closure fuel [init] [init])) as [s [sc [_ Ht]]].
+    - intros x Hx. eapply closure_runs; [| |exact Hx]; exact H0.
     - exact H.
     - exists sc. exact Ht. Qed.
+  (* ---- depth-first acceptor ------------------------------------------------
+     Searches for ONE run with the given visible trace: fire the next label
+     if it is enabled (stimuli only in quiescent states), otherwise try the
+     tau steps.  [memo] collects (remaining length, state) pairs already
+     known to fail; it only prunes.  Much cheaper than pushing whole state
+     sets when many threads run independently. *)
+  Definition memo_has (memo : list (nat * St)) (n : nat) (s : St) : bool :=
+    existsb (fun p => Nat.eqb (fst p) n && st_eqb (snd p) s) memo.
+
+  Fixpoint dfs (fuel : nat) (s : St) (tr : list Lab) (memo : list (nat * St)) : bool * list (nat * St) :=
+    match fuel with
+    | O => (false, memo)
+    | S f =>
+        match tr with
+        | [] => (true, memo)
+        | l :: r =>
+            if memo_has memo (length tr) s then (false, memo) else
+            let now := if stim l && negb (quiescent s) then [] else map (fun x => (x, r)) (vis_succ l s) in
+            let later := map (fun x => (x, tr)) (tau_succ s) in
+            let res :=
+              (fix go (cands : list (St * list Lab)) (memo : list (nat * St)) : bool * list (nat * St) :=
+                 match cands with
+                 | [] => (false, memo)
+                 | (x, tr') :: cs => let '(b, m') := dfs f x tr' memo in
+                                     if b then (true, m') else go cs m'
+                 end) (now ++ later) memo in
+            if fst res then res else (false, (length tr, s) :: snd res)
+        end
+    end.
+
+  Definition trace_accepted_dfs (fuel : nat) (init : St) (tr : list Lab) : bool :=
+    fst (dfs fuel init tr []).
+
+  Lemma tau_succ_step : forall s y, In y (tau_succ s) -> exists t, step s t = Some (None, y).
+  Proof. intros s y H. apply in_flat_map in H. destruct H as [t [_ H]].
+    destruct (step s t) as [[[l|] s']|] eqn:E; try contradiction. destruct H as [<-|[]]. exists t. exact E. Qed.
+
+  Lemma vis_succ_step : forall l s y, In y (vis_succ l s) -> exists t, step s t = Some (Some l, y).
+  Proof. intros l s y H. apply in_flat_map in H. destruct H as [t [_ H]].
+    destruct (step s t) as [[[l'|] s']|] eqn:E; try contradiction.
+    destruct (lab_eqb l l') eqn:El; [|contradiction]. apply lab_eqb_eq in El. subst l'.
+    destruct H as [<-|[]]. exists t. exact E. Qed.
+
+  Lemma dfs_sound : forall fuel s tr memo, fst (dfs fuel s tr memo) = true ->
+    exists sched, trace s sched = tr.
+  Proof. induction fuel as [|f IH]; intros s tr memo H; cbn in H; [discriminate|].
+    destruct tr as [|l r]; [exists []; reflexivity|].
+    destruct (memo_has memo (length (l :: r)) s); [discriminate|].
+    set (now := if stim l && negb (quiescent s) then [] else map (fun x => (x, r)) (vis_succ l s)) in H.
+    set (later := map (fun x => (x, l :: r)) (tau_succ s)) in H.
+    assert (Hc : forall x tr', In (x, tr') (now ++ later) ->
+              (exists t, step s t = Some (Some l, x) /\ tr' = r) \/ (exists t, step s t = Some (None, x) /\ tr' = l :: r)).
+    { intros x tr' Hin. apply in_app_or in Hin. destruct Hin as [Hin|Hin].
+      - left. unfold now in Hin. destruct (stim l && negb (quiescent s)); [destruct Hin|].
+        apply in_map_iff in Hin. destruct Hin as [y [Ey Hy]]. inversion Ey; subst.
+        destruct (vis_succ_step _ _ _ Hy) as [t Ht]. exists t. split; [exact Ht|reflexivity].
+      - right. apply in_map_iff in Hin. destruct Hin as [y [Ey Hy]]. inversion Ey; subst.
+        destruct (tau_succ_step _ _ Hy) as [t Ht]. exists t. split; [exact Ht|reflexivity]. }
+    revert H Hc. generalize (now ++ later). clear now later. intros cands. revert memo.
+    induction cands as [|[x tr'] cs IHc]; intros memo H Hc.
+    - cbn in H. discriminate.
+    - cbn in H. destruct (dfs f x tr' memo) as [b m'] eqn:E. destruct b.
+      + assert (E1 : fst (dfs f x tr' memo) = true) by (rewrite E; reflexivity).
+        destruct (IH _ _ _ E1) as [sc Hsc].
+        destruct (Hc x tr' (or_introl eq_refl)) as [[t [Ht ->]]|[t [Ht ->]]];
+          exists (t :: sc); cbn; rewrite Ht, Hsc; reflexivity.
+      + apply (IHc m').
+        * destruct ((fix go (cands : list (St * list Lab)) (memo : list (nat * St)) {struct cands} : bool * list (nat * St) :=
+             match cands with
+             | [] => (false, memo)
+             | (x, tr') :: cs => let '(b, m') := dfs f x tr' memo in if b then (true, m') else go cs m'
+             end) cs m') as [b2 m2] eqn:E2. cbn in H |- *. destruct b2; [reflexivity|discriminate].
+        * intros y tr2 Hin. apply Hc. right. exact Hin. Qed.
+
+  Theorem trace_accepted_dfs_sound : forall fuel init tr,
+    trace_accepted_dfs fuel init tr = true -> exists sched, trace init sched = tr.
+  Proof. intros fuel init tr H. eapply dfs_sound. exact H. Qed.
 End LTS.
 
 Arguments run {St Thr Lab}. Arguments trace {St Thr Lab}. Arguments Reachable {St Thr Lab}.
-Arguments trace_accepted {St Thr Lab}. Arguments quiescent {St Thr Lab}.
+Arguments trace_accepted {St Thr Lab}. Arguments trace_accepted_dfs {St Thr Lab}. Arguments quiescent {St Thr Lab}.
